@@ -273,6 +273,30 @@ def run(ctx, rep):
                               'the raw entry reader that Fat32::set uses to read the old entry can only return values up to %s: the '
                               'reserved top four bits are already masked away, so `old & 0xF000_0000` is always 0 and every update '
                               'clears them on disk' % hex(hi))
+    # X2b: the cluster number Fat32::get hands out as the next link is the masked 28-bit value
+    G32 = facts.fns.get('<fatfs::table::Fat<u32> as fatfs::table::FatTrait>::get')
+    if G32 is not None:
+        from intervals import Analysis, FnCtx
+        an = Analysis(facts, G32, FnCtx({}, {}, set()), {}, 0)
+        worst = None
+        nd = 0
+        for bi in G32.reachable():
+            for s_ in G32.blocks[bi]['stmts']:
+                if s_['k'] == 'assign' and s_['rv']['k'] == 'agg' and s_['rv'].get('variant') == 'Data' and \
+                        s_['rv'].get('adt', '').endswith('FatValue') and s_['rv']['ops']:
+                    nd += 1
+                    st_, _ = an.state_before_term(bi)
+                    iv = an.read_operand(st_, s_['rv']['ops'][0]) if st_ is not None else None
+                    hi = iv[1] if iv is not None else 0xFFFFFFFF
+                    worst = hi if worst is None else max(worst, hi)
+        ok = nd > 0 and worst is not None and worst <= 0x0FFFFFFF
+        rep.oblige('X2', G32.name + '|link-masked', ok=ok, nontrivial=True,
+                   sample={'fn': G32.name, 'largest link value that can be returned': hex(worst) if worst is not None else None})
+        if nd and not ok:
+            rep.violation('X2', vkey('X2', G32.name, 'link-unmasked', ''), G32.loc(G32.span),
+                          'Fat32::get can return FatValue::Data(n) with n up to %s: the reserved top four bits of the entry leak '
+                          'into the next-cluster number (an entry with those bits set, which set() itself preserves, sends the '
+                          'chain walk to a cluster far outside the volume)' % hex(worst))
     F12 = facts.fns.get('<fatfs::table::Fat<u8> as fatfs::table::FatTrait>::set_raw')
     if F12 is None:
         rep.machinery('ANCHOR-MISSING Fat12::set_raw')
@@ -412,6 +436,20 @@ def run_entry_offsets(ctx, rep):
                     rep.violation('X7', vkey('X7', name, 'offset-form', t['span']['snip']), fn.loc(t['span']),
                                   'the table offset in %s is not a closed form (+ * / by constants) of the cluster number: not '
                                   'comparable with the specification\'s cluster * %d / 8' % (name, bits))
+                    continue
+                def has_var(t_):
+                    return t_[0] == 'var' or (t_[0] not in ('const', ) and any(has_var(x) for x in t_[1:] if isinstance(x, tuple)))
+                if not has_var(tree):
+                    # a scan that starts at a fixed cluster (the first data cluster): the constant offset of that cluster
+                    first = facts.consts.get('fatfs::table::RESERVED_FAT_ENTRIES', {}).get('val', 2)
+                    ok = _eval_tree(tree, 0) == first * bits // 8
+                    rep.oblige('X7', '%s|bb%d' % (name, b), ok=ok, nontrivial=True,
+                               sample={'fn': name, 'at': fn.loc(t['span']), 'expression': str(tree),
+                                       'specification': 'offset of cluster %d = %d' % (first, first * bits // 8)})
+                    if not ok:
+                        rep.violation('X7', vkey('X7', name, 'entry-offset', ''), fn.loc(t['span']),
+                                      '%s seeks to the constant %d; the FAT%d entry of the first data cluster (%d) is at byte %d' % (
+                                          name, _eval_tree(tree, 0), bits, first, first * bits // 8))
                     continue
                 divs = _divisors(tree)
                 ok = None not in divs
